@@ -86,10 +86,14 @@ KINDS = [
     ("boost_or", ("boost", 2.0, ("or", ("t", "aa"), ("t", "bb")))),
     ("and3", ("and", ("t", "aa"), ("t", "bb"), ("t", "cc"))),
     ("dismax_and", ("dismax", ("and", ("t", "aa"), ("t", "bb")), ("t", "cc"))),
+    ("boost_or3", ("boost", 2.0, ("or", ("t", "aa"), ("t", "bb"), ("t", "cc")))),
+    ("boost_and", ("boost", 3.0, ("and", ("t", "aa"), ("t", "bb")))),
+    ("or_boost_term", ("or", ("boostt", 2.0, ("t", "aa")), ("t", "bb"))),
 ]
-BINARY_QUALITY_KNOWN = {"and", "or2", "or3", "andmaybe", "and_or", "or_and", "and3", "dismax_and", "boost_or",
+BINARY_QUALITY_KNOWN = {"and", "or2", "or3", "andmaybe", "and_or", "or_and", "and3", "dismax_and", "boost_or", "boost_or3", "boost_and",
+                        "or_boost_term",
                         "andnot_or", "and_not"}
-BOOSTED = {"boost_or"}
+BOOSTED = {"boost_or", "boost_or3", "boost_and", "or_boost_term"}
 
 
 def mkq(spec):
@@ -115,6 +119,8 @@ def mkq(spec):
         q = mkq(spec[2])
         q.boost = spec[1]
         return q
+    if op == "boostt":
+        return query.Term("t", spec[2][1], boost=spec[1])
     raise ValueError(op)
 
 
@@ -151,7 +157,7 @@ def ev(spec, corpus):
     if op == "not":
         a = ev(spec[1], corpus)
         return {i: None for i in live if i not in a}      # score of Not is not specified here
-    if op == "boost":
+    if op in ("boost", "boostt"):
         return {i: (None if s is None else s * spec[1]) for i, s in ev(spec[2], corpus).items()}
     raise ValueError(op)
 
